@@ -110,6 +110,15 @@ func appCases(args []string) {
 			id++
 			w.Emit(appCase{ID: id, Mode: "c11x", In: tr.Ints(in), Cls: "binary"})
 		}
+		// inputs that end with a very short fragment: 1-4 bytes of a frame, one stray byte (a final line feed), other data
+		// ending with a start byte - the fragment is data like any other and is shown before the function returns
+		for k, tail := range [][]byte{{0xd3}, {0xd3, 0x00}, {0xd3, 0x00, 0x08}, {0xd3, 0x00, 0x08, 0x4c}, {0xd3, 0x00, 0x08, 0x4c, 0xe0}, {'\n'}, {'x', 'y', 0xd3}, {0x00}} {
+			in := gen.Cat(gen.Frame(rng, 1005, 19, 0), gen.Frame(rng, 1230, 8, 0), tail)
+			id++
+			w.Emit(appCase{ID: id, Mode: "c11x", In: tr.Ints(in), Cls: "short tail"})
+			id++
+			w.Emit(appCase{ID: id, Mode: "c11", In: tr.Ints(in), Hold: holds[k%len(holds)], Chunk: []int{0, 1, 7}[k%3], Seed: rng.Int63(), Cls: "c11-short-tail"})
+		}
 		// one output fails (the display log's filestore is full) while standard output is slow; and a standard output whose
 		// consumer stalls for several seconds on its first write
 		{
